@@ -72,6 +72,37 @@ Proof.
   - apply IH; [lia|]. intros k Hk. apply (H (S k)). lia.
 Qed.
 
+(* ---- row equilibration: dividing a constraint row by a positive number keeps the feasible set; the slack is rescaled *)
+Lemma fold_max_nonneg r : 0 <= fold_right (fun v acc => if Qltb acc (Qabs v) then Qabs v else acc) 0 r.
+Proof.
+  induction r as [|v r IH]; simpl; [lra|].
+  destruct (Qltb _ (Qabs v)); [apply Qabs_nonneg | exact IH].
+Qed.
+
+Lemma row_scale_pos r : 0 < row_scale r.
+Proof.
+  unfold row_scale. pose proof (fold_max_nonneg r) as H.
+  set (mx := fold_right (fun v acc => if Qltb acc (Qabs v) then Qabs v else acc) 0 r) in *.
+  destruct (Qeq_bool mx 0) eqn:E; [lra|]. apply Qeq_bool_neq in E.
+  destruct (Qlt_le_dec 0 mx) as [Hp|Hn]; [exact Hp|]. exfalso. apply E. lra.
+Qed.
+
+Lemma scaled_row_length r : length (scaled_row r) = length r.
+Proof. unfold scaled_row. apply map_length. Qed.
+
+Lemma dot_scaled_row r x : dot (scaled_row r) x == dot r x / row_scale r.
+Proof. unfold scaled_row, Qdiv. rewrite (dot_scale_each (/ row_scale r)). reflexivity. Qed.
+
+Lemma row_scale_equiv sc ax s b : 0 < sc -> (ax / sc + s == b / sc <-> ax + sc * s == b).
+Proof.
+  intro Hsc. split; intro H.
+  - assert (E : ax + sc * s == (ax / sc + s) * sc) by (field; lra). rewrite E, H. field. lra.
+  - assert (E : ax / sc + s == (ax + sc * s) / sc) by (field; lra). rewrite E, H. reflexivity.
+Qed.
+
+Lemma div_nonneg a sc : 0 <= a -> 0 < sc -> 0 <= a / sc.
+Proof. intros Ha Hsc. apply Qle_shift_div_l; [exact Hsc | lra]. Qed.
+
 (* ---- the initial tableau *)
 Section Init.
   Variables (minimize : bool) (c : list Q) (A : list (list Q)) (b : list Q).
@@ -108,7 +139,8 @@ Section Init.
   Qed.
 
   Lemma T0_row k : (k < m)%nat ->
-    nth k (t_rows T0) row0 = rnorm (nth k A [] ++ unit_vec m k, nth k b 0).
+    nth k (t_rows T0) row0
+    = rnorm (scaled_row (nth k A []) ++ unit_vec m k, nth k b 0 / row_scale (nth k A [])).
   Proof.
     intro Hk. unfold T0, init_tableau. simpl. rewrite firstn_all2 by (rewrite valid_len; lia).
     rewrite (mapi_nth _ _ k [] row0) by (rewrite valid_len; exact Hk). reflexivity.
@@ -127,23 +159,26 @@ Section Init.
   Proof.
     split.
     - apply Forall_nth. intros k d Hk. change (k < length (t_rows T0))%nat in Hk. rewrite T0_rows_length in Hk. rewrite (nth_indep _ d row0) by (change (k < length (t_rows T0))%nat; rewrite T0_rows_length; exact Hk).
-      rewrite T0_row by exact Hk. simpl. rewrite map_length, app_length, unit_vec_length, valid_rows by exact Hk. reflexivity.
+      rewrite T0_row by exact Hk. cbn [rnorm fst]. rewrite map_length, app_length, unit_vec_length, scaled_row_length, valid_rows by exact Hk. reflexivity.
     - rewrite T0_obj. simpl. rewrite app_length, map_length, zeros_length, w_length. reflexivity.
   Qed.
 
   (* what it means for (x ++ s), |x| = n, to satisfy the initial tableau *)
   Lemma T0_sat x s z : length x = n ->
     (tab_sat (x ++ s) z T0 <->
-     (forall k, (k < m)%nat -> dot (nth k A []) x + get s k == nth k b 0) /\ dot w x == z).
+     (forall k, (k < m)%nat -> dot (nth k A []) x + row_scale (nth k A []) * get s k == nth k b 0) /\ dot w x == z).
   Proof.
     intro Hx. unfold tab_sat. rewrite T0_obj.
     assert (Hobj : obj_sat (x ++ s) z (map Qred w ++ zeros m, 0) <-> dot w x == z).
     { unfold obj_sat. simpl. rewrite dot_app by (rewrite map_length, w_length; lia).
       rewrite dot_map_Qred, dot_zeros_l. split; intro H; lra. }
     assert (Hrow : forall k, (k < m)%nat ->
-              (row_sat (x ++ s) (nth k (t_rows T0) row0) <-> dot (nth k A []) x + get s k == nth k b 0)).
-    { intros k Hk. rewrite T0_row by exact Hk. rewrite row_sat_rval, rval_rnorm. unfold rval. simpl.
-      rewrite dot_app by (rewrite valid_rows by exact Hk; lia). rewrite dot_unit_vec by exact Hk.
+              (row_sat (x ++ s) (nth k (t_rows T0) row0)
+               <-> dot (nth k A []) x + row_scale (nth k A []) * get s k == nth k b 0)).
+    { intros k Hk. rewrite T0_row by exact Hk. rewrite row_sat_rval, rval_rnorm. unfold rval. cbn [fst snd].
+      rewrite dot_app by (rewrite scaled_row_length, valid_rows by exact Hk; lia). rewrite dot_unit_vec by exact Hk.
+      rewrite dot_scaled_row.
+      rewrite <- (row_scale_equiv (row_scale (nth k A [])) (dot (nth k A []) x) (get s k) (nth k b 0) (row_scale_pos _)).
       split; intro H; lra. }
     split; intros [H1 H2]; (split; [|apply Hobj; exact H2]).
     - intros k Hk. apply Hrow; [exact Hk|]. rewrite Forall_forall in H1. apply H1. apply nth_In.
@@ -166,8 +201,8 @@ Section Init.
     destruct (existsb _ _) eqn:E; [|reflexivity]. exfalso.
     apply existsb_exists in E. destruct E as [r [Hin Hlt]].
     apply (In_nth _ _ row0) in Hin. destruct Hin as [k [Hk Hr]]. rewrite T0_rows_length in Hk.
-    rewrite T0_row in Hr by exact Hk. subst r. apply Qltb_lt in Hlt. rewrite snd_rnorm in Hlt. simpl in Hlt.
-    pose proof (b_nonneg k). lra.
+    rewrite T0_row in Hr by exact Hk. subst r. apply Qltb_lt in Hlt. rewrite snd_rnorm in Hlt. cbn [snd] in Hlt.
+    pose proof (div_nonneg _ _ (b_nonneg k) (row_scale_pos (nth k A []))). lra.
   Qed.
 
   Lemma T0_inv : p2_inv (n + m) T0 (seq n m).
@@ -177,14 +212,14 @@ Section Init.
     - rewrite seq_length, T0_rows_length. reflexivity.
     - intros i Hi. rewrite seq_length in Hi. rewrite seq_nth by exact Hi. lia.
     - intros i k Hi Hk. rewrite seq_length in Hi. rewrite T0_rows_length in Hk. rewrite seq_nth by exact Hi.
-      unfold entry. rewrite T0_row by exact Hk. rewrite get_rnorm. simpl.
-      rewrite <- (valid_rows k Hk). rewrite get_app_r. rewrite get_unit_vec by exact Hi.
+      unfold entry. rewrite T0_row by exact Hk. rewrite get_rnorm. cbn [fst].
+      rewrite <- (valid_rows k Hk). rewrite <- (scaled_row_length (nth k A [])). rewrite get_app_r. rewrite get_unit_vec by exact Hi.
       rewrite Nat.eqb_sym. reflexivity.
     - intros i Hi. rewrite seq_length in Hi. rewrite seq_nth by exact Hi. unfold objc. rewrite T0_obj. simpl.
       replace n with (length (map Qred w)) by (rewrite map_length; apply w_length).
       rewrite get_app_r. rewrite get_zeros. reflexivity.
-    - intros k Hk. rewrite T0_rows_length in Hk. unfold rhs. rewrite T0_row by exact Hk. rewrite snd_rnorm. simpl.
-      apply b_nonneg.
+    - intros k Hk. rewrite T0_rows_length in Hk. unfold rhs. rewrite T0_row by exact Hk. rewrite snd_rnorm. cbn [snd].
+      apply div_nonneg; [apply b_nonneg | apply row_scale_pos].
   Qed.
 End Init.
 
@@ -276,23 +311,24 @@ Proof.
   assert (Hfeas : feasible A b x).
   { split; [exact Hxn|]. apply Forall2_mv; [exact HlenA|].
     intros k Hk. rewrite HlenA in Hk. specialize (Hrows k Hk).
-    assert (0 <= get (skipn n v) k).
+    assert (Hsk : 0 <= get (skipn n v) k).
     { rewrite <- (get_app_r x). rewrite <- Hv. apply get_nonneg. exact Hvn. }
-    lra. }
+    pose proof (Qmult_le_0_compat _ _ (Qlt_le_weak _ _ (row_scale_pos (nth k A []))) Hsk). lra. }
   assert (Hopt : forall y, feasible A b y -> dot w x <= dot w y).
   { intros y [Hyn Hyb].
     set (y' := firstn n (y ++ zeros n)).
-    set (s' := map (fun k => nth k b 0 - dot (nth k A []) y') (seq 0 m)).
+    set (s' := map (fun k => (nth k b 0 - dot (nth k A []) y') / row_scale (nth k A [])) (seq 0 m)).
     assert (Ly : length y' = n) by (apply pad_length; lia).
     assert (Hrow_eq : forall k, (k < m)%nat -> dot (nth k A []) y' == dot (nth k A []) y).
     { intros k Hk. apply dot_pad; [|lia]. rewrite (valid_rows c A b Hvalid k Hk). fold n. lia. }
     assert (Hsat' : tab_sat (y' ++ s') (dot w y') T0).
     { apply (T0_sat minimize c A b Hvalid); [exact Ly|]. split; [|reflexivity].
-      intros k Hk. fold m in Hk. unfold s', get. rewrite nth_map_seq by exact Hk. simpl. ring. }
+      intros k Hk. fold m in Hk. unfold s', get. rewrite nth_map_seq by exact Hk. cbn [Nat.add].
+      pose proof (row_scale_pos (nth k A [])). field. lra. }
     apply Heq in Hsat'. destruct Hsat' as [_ Ho]. unfold obj_sat in Ho.
     assert (Hs'n : Forall (fun q => 0 <= q) s').
     { apply Forall_forall. intros q Hq. unfold s' in Hq. apply in_map_iff in Hq. destruct Hq as [k [Hq Hk]].
-      apply in_seq in Hk. subst q. rewrite Hrow_eq by lia.
+      apply in_seq in Hk. subst q. apply div_nonneg; [|apply row_scale_pos]. rewrite Hrow_eq by lia.
       pose proof (Forall2_mv_nth A b y k Hyb). rewrite HlenA in H. specialize (H ltac:(lia)). lra. }
     assert (Hv'n : Forall (fun q => 0 <= q) (y' ++ s')).
     { apply Forall_app. split; [apply pad_nonneg; exact Hyn | exact Hs'n]. }
@@ -342,9 +378,9 @@ Proof.
   assert (Hfeas : feasible A b x).
   { split; [exact Hxn|]. apply Forall2_mv; [exact HlenA|].
     intros k Hk. rewrite HlenA in Hk. specialize (Hrows k Hk).
-    assert (0 <= get (skipn n v) k).
+    assert (Hsk : 0 <= get (skipn n v) k).
     { rewrite <- (get_app_r x). rewrite <- Hv. apply get_nonneg. exact Hvn. }
-    lra. }
+    pose proof (Qmult_le_0_compat _ _ (Qlt_le_weak _ _ (row_scale_pos (nth k A []))) Hsk). lra. }
   split; [exact Hfeas|].
   apply Qred_correct.
 Qed.
